@@ -86,7 +86,15 @@ impl PanicInfo {
         let _col = parts.next();
         let rest = parts.next().unwrap_or(&self.location);
         // strip line too -> file only is too coarse; keep file:line but normalise the /repo prefix
-        rest.trim_start_matches("/repo/").to_string()
+        let rest = rest.trim_start_matches("/repo/");
+        // dependencies: drop the machine-specific registry prefix
+        if let Some(i) = rest.find("/registry/src/") {
+            let tail = &rest[i + "/registry/src/".len()..];
+            if let Some(j) = tail.find('/') {
+                return format!("registry:{}", &tail[j + 1..]);
+            }
+        }
+        rest.to_string()
     }
     /// file only (for known-finding keys that must survive small line shifts)
     pub fn file(&self) -> String {
